@@ -54,7 +54,19 @@ def rounded_case(draw):
 def circuit_case(draw):
     prog = draw(st.one_of(gen.program(min_n=2, max_n=5, depth=2, max_ops=6, lossy=False),
                           gen.addition_tree(max_n=4, max_adds=2, lossy=False)))
+    # "lossless" is a statement about the transformation: loss elements of value zero leave the circuit lossless
+    for _ in range(draw(st.sampled_from([0, 0, 1, 2]))):
+        prog["ops"].insert(draw(st.integers(0, len(prog["ops"]))), ["loss", draw(st.integers(0, prog["n"] - 1)), 0.0])
     return {"n": prog["n"], "unitary": None, "prog": prog}
+
+
+@st.composite
+def unitary_object_case(draw):
+    """A lightworks.Unitary object that was extended after construction (it is a Circuit like any other)."""
+    n = draw(st.integers(2, 6))
+    kind = draw(st.sampled_from(["haar", "dft", "perm", "identity", "hadamard", "real"]))
+    ops = draw(st.lists(gen.primitive(n, False), min_size=1, max_size=4))
+    return {"n": n, "unitary": None, "prog": None, "unitary_base": [kind, draw(st.integers(0, 10 ** 6))], "ops": ops}
 
 
 def dist_strategy(kind):
@@ -114,6 +126,13 @@ def noisy_case(draw):
 
 def make_circuit(case):
     import lightworks as lw
+    if case.get("unitary_base"):
+        from vlib.build import apply_real
+        kind, seed = case["unitary_base"]
+        c = lw.Unitary(make_unitary(kind, case["n"], seed))
+        for op in case["ops"]:
+            call("extend Unitary object", apply_real, c, op)
+        return c
     if case["prog"] is not None:
         return call("build", build_real, case["prog"])
     n = case["n"]
@@ -201,11 +220,16 @@ def run_ideal(case):
         labels.append("zero-or-tiny-entry")
     if case["prog"] is not None:
         labels.append("circuit-with-heralds" if c.heralds["input"] else "circuit")
+    elif case.get("unitary_base"):
+        labels.append("extended-unitary-object:" + case["unitary_base"][0])
     else:
         labels.append("kind:" + case["unitary"][0][0])
+    if case["prog"] is not None and any(op[0] == "loss" for op in case["prog"]["ops"]):
+        labels.append("zero-valued-loss-element")
     if case.get("round"):
         labels.append("rounded-accepted")
-    return {"nontrivial": structured or bool(c.heralds["input"]) or bool(case.get("round")), "labels": labels}
+    return {"nontrivial": structured or bool(c.heralds["input"]) or bool(case.get("round"))
+            or bool(case.get("unitary_base")), "labels": labels}
 
 
 def run_noisy(case):
@@ -301,11 +325,45 @@ def run_noisy(case):
     return {"nontrivial": bool(nonconst), "labels": labels}
 
 
+def noisy_signature(case):
+    """Every programmed value of the noisy map of `case` for its seed (evaluated here and in a second interpreter)."""
+    from lightworks import interferometers
+    c = make_circuit(case)
+    em = interferometers.ErrorModel()
+    attrs = {"refl": "bs_reflectivity", "loss": "loss", "phase": "phase_offset"}
+    for key in ("refl", "loss", "phase"):
+        setattr(em, attrs[key], make_dist(case["model"][key])[0])
+    m = interferometers.Reck(em).map(c, seed=case["seed"])
+    ps, bs, loss, _ = components(m)
+    return ([[p.mode, float(p.phi)] for p in ps] + [[b.mode_1, b.mode_2, float(b.reflectivity)] for b in bs]
+            + [[l.mode, float(l.loss)] for l in loss])
+
+
+def run_noisy_peer(case):
+    """"the same seed gives the same mapped circuit" - also when the program is run again: a second interpreter
+    (which salts hash() differently) must program exactly the same values."""
+    from vlib import peer
+    case = {k: v for k, v in case.items() if k not in ("prior", "order")}
+    here = call("Reck(em).map", noisy_signature, case)
+    kind, there = peer.ask("checks.c14", "noisy_signature", case)
+    if kind != "ok":
+        raise Violation(f"noisy map works here but raised in a second interpreter: {there}",
+                        key="seed-not-reproducible-across-processes")
+    if here != there:
+        diff = next((a, b) for a, b in zip(here, there) if a != b) if len(here) == len(there) else (len(here), len(there))
+        raise Violation(f"seed {case['seed']}: noisy map programs {diff[0]} in this interpreter and {diff[1]} in a "
+                        f"second one (PYTHONHASHSEED {peer.PEER_HASHSEED})", key="seed-not-reproducible-across-processes")
+    random_kinds = sum(case["model"][k][0] != "constant" for k in ("refl", "loss", "phase"))
+    return {"nontrivial": random_kinds >= 1, "labels": [f"random-quantities:{random_kinds}"]}
+
+
 def subs(tier):
     q = tier == "quick"
     return [
         Sub("ideal-unitaries", run_ideal, strategy=unitary_case(max_n=8 if q else 10), examples=200 if q else 8000),
         Sub("rounded-unitaries", run_ideal, strategy=rounded_case(), examples=100 if q else 3000),
         Sub("ideal-circuits", run_ideal, strategy=circuit_case(), examples=100 if q else 3000),
+        Sub("extended-unitary-objects", run_ideal, strategy=unitary_object_case(), examples=40 if q else 1500),
+        Sub("seed-across-interpreters", run_noisy_peer, strategy=noisy_case(), examples=8 if q else 500),
         Sub("error-models", run_noisy, strategy=noisy_case(), examples=100 if q else 4000),
     ]
